@@ -224,9 +224,9 @@ def compute_variable_dimension(context, side_boxes, vertical, available_size):
                 flex_factor_sum = flex_factor_a + flex_factor_c
                 if flex_factor_sum == 0:
                     flex_factor_sum = 1
-                box_a.outer = box_a.max_content_size + (
+                box_a.outer = box_a.outer_max_content_size + (
                     flex_space * flex_factor_a / flex_factor_sum)
-                box_c.outer = box_c.max_content_size + (
+                box_c.outer = box_c.outer_max_content_size + (
                     flex_space * flex_factor_c / flex_factor_sum)
             elif available_size > (
                     box_a.outer_min_content_size +
@@ -244,9 +244,9 @@ def compute_variable_dimension(context, side_boxes, vertical, available_size):
                 flex_factor_sum = flex_factor_a + flex_factor_c
                 if flex_factor_sum == 0:
                     flex_factor_sum = 1
-                box_a.outer = box_a.min_content_size + (
+                box_a.outer = box_a.outer_min_content_size + (
                     flex_space * flex_factor_a / flex_factor_sum)
-                box_c.outer = box_c.min_content_size + (
+                box_c.outer = box_c.outer_min_content_size + (
                     flex_space * flex_factor_c / flex_factor_sum)
             else:
                 # otherwise
@@ -259,9 +259,9 @@ def compute_variable_dimension(context, side_boxes, vertical, available_size):
                 flex_factor_sum = flex_factor_a + flex_factor_c
                 if flex_factor_sum == 0:
                     flex_factor_sum = 1
-                box_a.outer = box_a.min_content_size + (
+                box_a.outer = box_a.outer_min_content_size + (
                     flex_space * flex_factor_a / flex_factor_sum)
-                box_c.outer = box_c.min_content_size + (
+                box_c.outer = box_c.outer_min_content_size + (
                     flex_space * flex_factor_c / flex_factor_sum)
         else:
             # only one box has 'width: auto'
@@ -285,7 +285,7 @@ def compute_variable_dimension(context, side_boxes, vertical, available_size):
                 flex_factor_sum = flex_factor_b + flex_factor_ac
                 if flex_factor_sum == 0:
                     flex_factor_sum = 1
-                box_b.outer = box_b.max_content_size + (
+                box_b.outer = box_b.outer_max_content_size + (
                     flex_space * flex_factor_b / flex_factor_sum)
             else:
                 ac_min_content_size = 2 * max(
@@ -302,7 +302,7 @@ def compute_variable_dimension(context, side_boxes, vertical, available_size):
                     flex_factor_sum = flex_factor_b + flex_factor_ac
                     if flex_factor_sum == 0:
                         flex_factor_sum = 1
-                    box_b.outer = box_b.min_content_size + (
+                    box_b.outer = box_b.outer_min_content_size + (
                         flex_space * flex_factor_b / flex_factor_sum)
                 else:
                     flex_space = (
@@ -314,7 +314,7 @@ def compute_variable_dimension(context, side_boxes, vertical, available_size):
                     flex_factor_sum = flex_factor_b + flex_factor_ac
                     if flex_factor_sum == 0:
                         flex_factor_sum = 1
-                    box_b.outer = box_b.min_content_size + (
+                    box_b.outer = box_b.outer_min_content_size + (
                         flex_space * flex_factor_b / flex_factor_sum)
         if box_a.inner == 'auto':
             box_a.outer = (available_size - box_b.outer) / 2
